@@ -897,8 +897,26 @@ impl Check for WCheck {
         }
     }
     fn generate(&self, run_seed: u64, index: u64, _tier: Tier) -> Value {
-        let mut plan = lsim::plan::generate(run_seed, &w_profile(index));
+        let mut prof = w_profile(index);
+        if self.prop == "C19" {
+            prof.receiver_restart = false;
+            prof.p_fault_free = 0.5;
+        }
+        let mut plan = lsim::plan::generate(run_seed, &prof);
         plan.cfg.conn_timeout_ms = 5000;
+        if self.prop == "C19" {
+            // 1..4 reloads inside the traffic, at least 2.5 s apart (one housekeeping tick applies each)
+            use crate::lsim::plan::{Action, TimedAction, gen_reload_text};
+            let mut r = crate::prng::Rng::new(run_seed ^ 0x1919_57);
+            let (lo, hi) = traffic_window(&plan);
+            let mut t = lo + r.range(100, 1500);
+            while t + 3000 < hi.max(lo + 6000) {
+                plan.actions.push(TimedAction { t, kind: Action::Reload { text: gen_reload_text(&mut r, plan.n_links) } });
+                t += r.range(2500, 5000);
+            }
+            plan.horizon_ms = plan.horizon_ms.max(t + 3000);
+            plan.actions.sort_by_key(|a| a.t);
+        }
         if self.prop == "C09" {
             inject_arbitrary(&mut plan, run_seed, run_seed % 4096, 120);
         }
@@ -1096,6 +1114,13 @@ pub fn all() -> Vec<Box<dyn Check>> {
             probes: &["c03l.decision_with_usable_link", "c03l.every_usable_link_quality_gated", "c03l.single_link_left"],
         });
         v.insert(pos, Box::new(Multi { id: "C03", parts: vec![k, l], weights: vec![20, 1] }));
+    }
+    // C19: engine L (exact snapshots around the real apply call) plus the real loop's SIGHUP arm and apply glue
+    {
+        let pos = v.iter().position(|c| c.id() == "C19").unwrap();
+        let l = v.remove(pos);
+        let w = Box::new(WCheck { prop: "C19", runs_quick: 80, runs_thorough: 4000 });
+        v.insert(pos, Box::new(Multi { id: "C19", parts: vec![l, w], weights: vec![5, 1] }));
     }
     // C11 and C13: engine K histories plus the same monitors on live closed-loop decisions (engine L)
     for (id, mk) in [
